@@ -95,12 +95,18 @@ package document
 // collectHeadingsAndAddBookmarks (AutoGenerateTOC): every collected entry has a level in 1..9 - the precondition
 // under which createWordFieldTOC / createTOCEntryWithFields write a defined TOC entry style. (What the function does
 // to the body - a bookmark pair around every collected heading - is not specified here.)
+// C15: the collected entries are exactly the heading paragraphs of the body up to maxLevel that have text, each once,
+// in body order, with the paragraph's text and level (same statement as collectHeadings; two headings with the same
+// text are two entries). The paragraphs themselves are not written.
 //@ func (*Document).collectHeadingsAndAddBookmarks
-//@ props C13
+//@ props C13, C15
 //@ appendfacts
 //@ requires d != nil && d.Body != nil && elemsOK(d.Body.Elements)
 //@ ensures forall k int :: {result[k]} 0 <= k && k < len(result) ==> 1 <= result[k].Level && result[k].Level <= 9
 //@ ensures len(d.Body.Elements) >= old(len(d.Body.Elements))
+//@ ensures len(result) == old(tocCount(d.Body.Elements, len(d.Body.Elements), maxLevel))
+//@ ensures forall j int :: 0 <= j && j < old(len(d.Body.Elements)) && old(tocIsEntry(d.Body.Elements[j], maxLevel)) ==> 0 <= old(tocCount(d.Body.Elements, j, maxLevel)) && old(tocCount(d.Body.Elements, j, maxLevel)) < len(result)
+//@ ensures forall j int :: 0 <= j && j < old(len(d.Body.Elements)) && old(tocIsEntry(d.Body.Elements[j], maxLevel)) ==> result[old(tocCount(d.Body.Elements, j, maxLevel))].Text == old(tocText(d.Body.Elements[j].(*Paragraph))) && result[old(tocCount(d.Body.Elements, j, maxLevel))].Level == old(tocLevel(d.Body.Elements[j].(*Paragraph)))
 //@ loop 1
 //@   invariant len(newElements) >= #i
 //@   invariant 0 <= #i && #i <= old(len(d.Body.Elements)) && d != nil && d.Body != nil && d.Body.Elements == old(d.Body.Elements)
@@ -108,6 +114,10 @@ package document
 //@   invariant cap(entries) == 0 || (arr(entries) >= old(allocBound()) && arr(entries) < allocBound())
 //@   invariant cap(newElements) == 0 || (arr(newElements) >= old(allocBound()) && arr(newElements) < allocBound())
 //@   invariant forall k int :: {entries[k]} 0 <= k && k < len(entries) ==> 1 <= entries[k].Level && entries[k].Level <= 9
+//@   invariant len(entries) == old(tocCount(d.Body.Elements, #i, maxLevel))
+//@   invariant forall j int :: 0 <= j && j <= #i ==> 0 <= old(tocCount(d.Body.Elements, j, maxLevel))
+//@   invariant forall j int :: 0 <= j && j < #i && old(tocIsEntry(d.Body.Elements[j], maxLevel)) ==> old(tocCount(d.Body.Elements, j, maxLevel)) < len(entries)
+//@   invariant forall j int :: 0 <= j && j < #i && old(tocIsEntry(d.Body.Elements[j], maxLevel)) ==> entries[old(tocCount(d.Body.Elements, j, maxLevel))].Text == old(tocText(d.Body.Elements[j].(*Paragraph))) && entries[old(tocCount(d.Body.Elements, j, maxLevel))].Level == old(tocLevel(d.Body.Elements[j].(*Paragraph)))
 //@   decreases old(len(d.Body.Elements)) - #i
 
 // AutoGenerateTOC hands createWordFieldTOC entries with levels in 1..9 (pre@createWordFieldTOC is discharged here),
